@@ -557,8 +557,8 @@ def _group_start(R, f, loop, value, cur_set, ae):
                 init['cnt'] = const_val(st.value)
             if st.targets[0].id == cur_set and isinstance(st.value, ast.List) and not st.value.elts:
                 init['cs'] = 'E'
-    if set(init) != {'cnt', 'cs'}:
-        R.undecided(f, loop, 'initial values of %s / %s before the scan not recognised' % (cnt, cur_set), construct=cons)
+    if 'cs' not in init:
+        R.undecided(f, loop, 'initial value of %s before the scan not recognised' % cur_set, construct=cons)
         return
 
     class Fork(Exception):
@@ -712,7 +712,8 @@ def _group_start(R, f, loop, value, cur_set, ae):
     try:
         for flag in (False, True):
             seen = set()
-            work = [(init['cs'], norm_cnt(init['cnt']))]
+            # without an initial value the remaining count is arbitrary at the first token
+            work = [(init['cs'], norm_cnt(init['cnt']))] if 'cnt' in init else [(init['cs'], c_) for c_ in (0, 1, 2, 'BIG')]
             reach = {}
             while work:
                 hs = work.pop()
